@@ -189,6 +189,22 @@ class Reference(object):
         return tot
 
 
+# The ID of an individual is a LABEL (PopLayout!LLId is one concretisation): every other case names the individuals the way
+# datasets do -- numbers in data order, neither sorted nor in lexicographic order ('12' < '3' < '7' as strings)
+LABELS = ['7', '12', '3', '10', '1', '25', '2', '9', '30', '4']
+
+
+def relabel(rec, key):
+    if (int(key, 16) // 17) % 2:
+        return False
+    tr = {'Log-likelihood %d' % (i + 1): l for i, l in enumerate(LABELS)}
+    rec['_labels'] = LABELS
+    for f in ('ids', 'uniqueids'):
+        if f in rec:
+            rec[f] = [tr.get(i, i) for i in rec[f]]
+    return True
+
+
 def build(rec, rng, tag):
     """Builds the real objects for a configuration. Returns (hll, pop, lls, data, covs, fixed_vals, vals)."""
     subs = rec['subs']
@@ -235,6 +251,9 @@ def build(rec, rng, tag):
             ll = chi.LogLikelihood(mech, chi.GaussianErrorModel(), y, t)
             ll.fix_parameters({'P%d' % ndim: llfix})
             lls.append(ll)
+    if rec.get('_labels'):
+        for i, ll in enumerate(lls):
+            ll.set_id(rec['_labels'][i])
     covs = np.round(rng.uniform(0.0, 1.0, size=(nids, max(rec['ncov'], 1))), 2)[:, :rec['ncov']]
     hll = chi.HierarchicalLogLikelihood(lls, pop, covariates=covs if rec['ncov'] > 0 else None)
     return hll, pop, lls, data, covs, fixed_vals, vals
@@ -244,16 +263,20 @@ def replay_case(arg):
     rec, seed = arg
     fails = []
     cnt = {'cases': 1}
-    key = digest(rec)
+    cfg0 = {k: v for k, v in rec.items() if not k.startswith('_')}      # (what a replay file carries)
+    rec = dict(cfg0)
+    key = digest(cfg0)
     rng = np.random.default_rng([seed, int(key, 16) % (2 ** 31)])
     feats = features(rec)
+    if relabel(rec, key):
+        feats.append('custom_ids_not_sorted')
     if nontrivial(rec):
         cnt['nontrivial'] = 1
     for f in feats:
         cnt['feat_' + f] = 1
 
     def fail(clause, manifestation, detail):
-        fails.append(dict(case=dict(config=rec), clause=clause, manifestation=manifestation,
+        fails.append(dict(case=dict(config=cfg0), clause=clause, manifestation=manifestation,
                           detail=detail, features=feats))
 
     try:
